@@ -135,6 +135,93 @@ def run(chk) -> None:
     _r27a_fluffconfig(chk)
     _r27b(chk)
     _r27c(chk)
+    chk.rule("R27d", "FluffConfig.copy() hands out an object whose _configs is a deep copy (deepcopy / nested_combine) of the original's: what R27b calls a fresh per-file config shares no nested dict with the config it was copied from")
+    chk.rule("R27e", "nested_combine lets the later dict win for every key: each key of each later dict is stored into the result (or merged recursively, or rejected by a raise) on every path through the merge loop")
+    _r27d(chk)
+    _r27e(chk)
+
+
+# ---------------------------------------------------------------------------
+# R27d / R27e
+# ---------------------------------------------------------------------------
+
+
+def _r27d(chk) -> None:
+    repo = chk.repo
+    cp = repo.fn(FLUFF, "FluffConfig.copy")
+    cfg = cfg_of(cp)
+    rets = [r for r in returns_of(cp) if r.value is not None]
+    chk.count("R27d.copy_returns", len(rets))
+    if not rets:
+        raise AnalysisError("FluffConfig.copy has no return (anchor changed?)")
+    for r in rets:
+        ok, why = False, "the returned object's _configs is never assigned in copy()"
+        srcs = single_sources(cfg, r.value, r)
+        for s in srcs:
+            if s.kind == "expr" and isinstance(s.expr, ast.Call):
+                rr = _resolved(repo, s.expr)
+                if rr and isinstance(rr[1], ast.ClassDef) and _is_fluffconfig_class(repo, rr[1]):
+                    ok = True  # built by the constructor, which merges through nested_combine (R27a)
+        if not ok and isinstance(r.value, ast.Name):
+            stores = [
+                n for n in walk_local(cp)
+                if isinstance(n, ast.Assign) and any(
+                    isinstance(t, ast.Attribute) and t.attr == "_configs" and isinstance(t.value, ast.Name) and t.value.id == r.value.id
+                    for t in n.targets
+                )
+            ]
+            if stores:
+                ok = True
+                for st in stores:
+                    vs = single_sources(cfg, st.value, st)
+                    good = bool(vs) and all(
+                        v.kind == "expr" and isinstance(v.expr, ast.Call) and last_attr(v.expr) in SANITISERS
+                        and v.expr.args and norm(v.expr.args[0]) == "self._configs"
+                        for v in vs
+                    )
+                    if not good:
+                        ok, why = False, f"`{short(st, 70)}`: the value is not deepcopy(self._configs, ..) / nested_combine(self._configs)"
+                if ok and not any(cfg.dominates(st, r) for st in stores):
+                    ok, why = False, "a return of copy() is not preceded by the store of the copied _configs"
+        chk.require(
+            ok, "R27d", r,
+            f"FluffConfig.copy() returns a config that shares nested dicts with the original ({why}): set_value()/inline directives applied to the "
+            "per-file copy write through to the linter's own config and leak into every later file",
+            detail="copy() deep-copies _configs",
+        )
+
+
+def _r27e(chk) -> None:
+    repo = chk.repo
+    nc = repo.fn(HDICT, "nested_combine")
+    cfg = cfg_of(nc)
+    fors = [n for n in walk_local(nc) if isinstance(n, ast.For)]
+    # the loop over the keys of one input dict: `for k in d` / `for k, v in d.items()` nested in the loop over the inputs
+    key_loops = [n for n in fors if any(isinstance(p, ast.For) for p in _parents(n, nc))]
+    chk.count("R27e.key_loops", len(key_loops))
+    if not key_loops:
+        raise AnalysisError("nested_combine: loop over the keys of each input dict not found (anchor changed?)")
+    for loop in key_loops:
+        stores = set()
+        for n in walk_local(loop):
+            if isinstance(n, ast.Assign) and any(isinstance(t, ast.Subscript) for t in n.targets):
+                stores.add(n)
+        first = loop.body[0]
+        # a pass through the body that comes back to the loop head (or leaves the loop) without a store
+        skips = cfg.paths_avoiding(first, loop, lambda n: n in stores) if first not in stores else False
+        chk.require(
+            bool(stores) and not skips, "R27e", loop,
+            "nested_combine has a path through its key loop that neither stores the later dict's value into the result, nor merges it recursively, "
+            "nor raises: for such keys an earlier (lower-precedence) source wins over a later one",
+            detail="every key of a later dict is stored",
+        )
+
+
+def _parents(n, stop):
+    p = getattr(n, "_parent", None)
+    while p is not None and p is not stop:
+        yield p
+        p = getattr(p, "_parent", None)
 
 
 # ---------------------------------------------------------------------------
@@ -1018,6 +1105,24 @@ def _r27c(chk) -> None:
 from ..selftest import Variant  # noqa: E402
 
 VARIANTS = [
+    Variant(
+        "copy-shallow-sections", FLUFF,
+        "        configs_attribute_copy = deepcopy(self._configs, memo)\n",
+        "        configs_attribute_copy = {k: dict(v) if isinstance(v, dict) else v for k, v in self._configs.items()}\n",
+        "R27d", "copy", "seeded C27-1: nested rule sections shared between the linter's config and the per-file copy",
+    ),
+    Variant(
+        "merge-skips-none-values", HDICT,
+        "            else:\n                # In normal operation, these nested dicts should only contain\n",
+        "            elif d[k] is None and k in r:\n                continue\n            else:\n                # In normal operation, these nested dicts should only contain\n",
+        "R27e", "nested_combine", "seeded C27-2: a nearer `key = None` no longer overrides a farther value",
+    ),
+    Variant(
+        "quiet-copy-through-temp", FLUFF,
+        "        config_copy = copy(self)\n        config_copy._configs = configs_attribute_copy\n        return config_copy\n",
+        "        duplicate = copy(self)\n        fresh_configs = configs_attribute_copy\n        duplicate._configs = fresh_configs\n        return duplicate\n",
+        "QUIET", None, "copied dict passed through another local, result renamed",
+    ),
     # ---- R27a ------------------------------------------------------------------
     Variant(
         "appdir-after-home", LOADER,
